@@ -70,6 +70,9 @@ func runQueryProp(prop string, seed int64, tier string, out string) {
 			if r.Intn(6) == 0 {
 				nrows = 0
 			}
+			if wi == 0 && nrows < 2 {
+				nrows = 2 // the corpus queries of world 0 need rows
+			}
 			if big && ti < 2 {
 				nrows = 100 + r.Intn(300)
 				if ti == 1 {
@@ -99,20 +102,32 @@ func runQueryProp(prop string, seed int64, tier string, out string) {
 		}
 		for qi := 0; qi < nq; qi++ {
 			var q qQuery
-			switch prop {
-			case "C03":
-				depth := 3
-				if tier == "thorough" {
-					depth = 4
+			if prop == "C03" && wi == 0 && qi == 0 {
+				// corpus: finding join-after-cross-join (the left operand of INNER/LEFT/RIGHT/FULL JOIN .. ON that
+				// follows an unparenthesised CROSS JOIN is only the last table, so the first one is not
+				// visible in the ON clause)
+				t1, t2 := w.tables[0], w.tables[1]
+				q = qQuery{mode: 1, shape: "corpus", tags: []string{"join-after-cross-join"}, cpu: 1}
+				q.sql = fmt.Sprintf("SELECT a.c1 FROM %s AS a CROSS JOIN %s AS b INNER JOIN %s AS c ON a.c1 <> c.c1 OR a.c1 IS NULL OR c.c1 IS NULL", t1.name, t2.name, t2.name)
+				lw, rw := len(t1.cols), len(t2.cols)
+				q.coq = fmt.Sprintf("(Q (BSelect (SrcJoin JInner (SrcJoin JCross (SrcTable %d %s) (SrcTable %d %s) None) (SrcTable %d %s) (Some (EOr (EOr (ECmp OpNe (ECol 0) (ECol %d)) (EIs false (ECol 0) (ELit VNull))) (EIs false (ECol %d) (ELit VNull))))) None None None [SExpr (ECol 0)] false) [] None None)",
+					lw, t1.coq, rw, t2.coq, rw, t2.coq, lw+rw, lw+rw)
+			} else {
+				switch prop {
+				case "C03":
+					depth := 3
+					if tier == "thorough" {
+						depth = 4
+					}
+					if big {
+						depth = 1
+					}
+					q = g.genSelectJoin(w, r.Intn(depth+1))
+				case "C04":
+					q = g.genBucket(w)
+				case "C07":
+					q = g.genOrder(w, w.tables[r.Intn(len(w.tables))])
 				}
-				if big {
-					depth = 1
-				}
-				q = g.genSelectJoin(w, r.Intn(depth+1))
-			case "C04":
-				q = g.genBucket(w)
-			case "C07":
-				q = g.genOrder(w, w.tables[r.Intn(len(w.tables))])
 			}
 			q.cpu = 1
 			if qi%3 == 2 && q.shape != "group-by" {
